@@ -462,23 +462,49 @@ def run_C01(ctx):
 
 
 def replay(failure):
+    """re-run the failing case on the current tree: NumPy step, the compiled function at the recorded symbol type /
+    level / names / options, and the specification value of the recorded observable"""
     import json
     net = nets.Net.from_json(failure["net"])
-    pv, sv = failure["pv"], failure["sv"]
+    pv, sv = failure["pv"], failure.get("sv")
     print("network:", json.dumps(failure["net"]))
     print("what:", failure["what"])
-    run = Runner(net, pv)
+    names = None
+    if isinstance(failure.get("names"), dict):
+        names = default_names(net)
+        for k, v in failure["names"].items():
+            try:
+                kk = eval(k, {"__builtins__": {}})
+                names[kk] = v
+            except Exception:
+                pass
+    run = Runner(net, pv, names=names, reads_seed=failure.get("reads_seed"))
+    opts = failure.get("opts")
+    obs = failure.get("observable")
+    if sv is None:
+        print("(no state point recorded: the failure is about construction / compilation; re-run the check)")
+        return 0
     try:
-        got = run.numpy_step(sv, failure.get("opts"))
-        print("NumPy next states now:", {k: v for k, v in got.items() if not k.startswith("shape")})
+        got = run.numpy_step(sv, opts, failure.get("scalar_shape", "vec1"))
+        vals = {k: v for k, v in got.items() if not k.startswith("shape")}
+        print("NumPy next states now:", vals if obs is None else {obs: vals.get(obs)})
     except Exception as ex:
         print("NumPy step raises:", repr(ex))
+    if failure.get("sym") or failure.get("compact") is not None:
+        sym, compact, more = failure.get("sym", "SX"), failure.get("compact", 0), bool(failure.get("more_out", False))
+        try:
+            F, _ = run.function(sym, compact, more, opts, failure.get("ptoks"))
+            vals, probs = run.call(F, min(max(compact, 0), 2) if failure.get("ptoks") is None else compact, more, sv, failure.get("ptoks"))
+            print(f"CasADi {sym} compact={compact} more_out={more}:", probs if vals is None else (vals if obs is None else {obs: vals.get(obs)}))
+        except Exception as ex:
+            print(f"CasADi {sym} compact={compact}: raises", repr(ex)[:300])
     try:
         st = dyn.spec_trees([net])[0]
         env = dyn.env_of(pv, sv)
-        print("specification:", {k: v[0] for k, v in dyn.eval_all(st, env).items()})
+        spec = {k: v[0] for k, v in dyn.eval_all(st, env).items()}
+        print("specification:", spec if obs is None else {obs: spec.get(obs)})
     except Exception as ex:
-        print("spec trees unavailable:", ex)
+        print("spec trees unavailable:", str(ex)[:200])
     return 0
 
 
